@@ -60,6 +60,10 @@ def write(fmt, regions, filename, overwrite, fail):
             return _write_crtf(regions, filename, coordsys='image', radunit='arcsec', overwrite=overwrite)
         return _write_crtf(regions, filename, coordsys=('nosuchframe' if fail == 'bad_option' else 'fk5'), overwrite=overwrite)
     from regions.io.fits.write import _write_fits
+    if fail == 'bad_option':
+        return _write_fits(regions, filename, header={'EXTNAME': 'REGION', 'OBSERVER': 'Andr\u00e9'}, overwrite=overwrite)
+    if fail == 'late_failing_option':
+        return _write_fits(regions, filename, header={'EXTNAME': 'REGION', 'WHAT': [1, 2]}, overwrite=overwrite)
     return _write_fits(regions, filename, overwrite=overwrite)
 
 
@@ -92,10 +96,8 @@ def existed(events, exists):
     """did the destination exist when the writer asked? (pre-created by the contract, or the abstract answer of lexists/exists)"""
     if exists:
         return True
-    for e in events.of('fs'):
-        if e['op'] in ('lexists', 'exists'):
-            return e['result']
-    return False
+    from vprim import fs_initially
+    return fs_initially('lexists', DEST)      # a dangling symbolic link counts (exists() would say no)
 
 
 @contract('regions/io/ds9/write.py::_write_ds9', props=['C14', 'C13'])
@@ -103,7 +105,7 @@ class write_never_clobbers_or_half_writes:
     cases = {f + '-' + ('existing' if ex else 'unknown') + '-' + ('overwrite' if ow else 'keep') + '-' + fl:
              {'fmt': f, 'exists': ex, 'overwrite': ow, 'fail': fl}
              for f in ('ds9', 'crtf', 'fits') for ex in (True, False) for ow in (False, True) for fl in FAILS
-             if not (f == 'fits' and fl != 'none') and not (f != 'crtf' and fl.startswith('late_'))}
+             if not (f == 'ds9' and fl.startswith('late_')) and not (f == 'fits' and fl == 'late_failing_region')}
 
     def setup(B, fmt='ds9', exists=True, overwrite=False, fail='none'):
         if exists:
@@ -226,3 +228,44 @@ class read_parses_exactly_the_file_content:
     call = lambda fmt: read_with_stubbed_parser(fmt, 'f.dat')
     post = {'parser_receives_the_written_text': lambda fmt, text, result: result[0] == 'PARSED' and (
         text_equal(result[1], text) if fmt == 'ds9' else text_equal('#CRTFv0\n' + result[1], text))}
+
+
+# ---------------------------------------------------------------------------- the writers hand their options to the serialisers
+OPTION_CASES = {
+    'crtf-radunit': ('crtf', {'coordsys': 'fk5', 'fmt': '.6f', 'radunit': 'arcsec'}),
+    'crtf-fmt': ('crtf', {'coordsys': 'fk5', 'fmt': '.3f', 'radunit': 'deg'}),
+    'crtf-frame': ('crtf', {'coordsys': 'galactic', 'fmt': '.6f', 'radunit': 'arcmin'}),
+    'ds9-precision': ('ds9', {'precision': 3}),
+}
+
+
+def write_with(fmt, regions, filename, opts):
+    if fmt == 'ds9':
+        from regions.io.ds9.write import _write_ds9
+        return _write_ds9(regions, filename, overwrite=True, **opts)
+    from regions.io.crtf.write import _write_crtf
+    return _write_crtf(regions, filename, overwrite=True, **opts)
+
+
+def serialize_with(fmt, regions, opts):
+    if fmt == 'ds9':
+        from regions.io.ds9.write import _serialize_ds9
+        return _serialize_ds9(regions, **opts)
+    from regions.io.crtf.write import _serialize_crtf
+    return _serialize_crtf(regions, **opts)
+
+
+@contract('regions/io/crtf/write.py::_write_crtf', props=['C14', 'C11', 'C09'])
+class written_file_is_the_serialisation_with_the_same_options:
+    """frame, number format and length unit asked of write() are the ones the file is written with"""
+    cases = {k: {'fmt': v[0], 'opts': v[1]} for k, v in OPTION_CASES.items()}
+
+    def setup(B, fmt='crtf', opts=None):
+        regs = [mk(B, 'circle', 'g0', 'fk5', {'text': 'a'}), mk(B, 'ellipse', 'g1', 'fk5')]
+        size = lambda v: v.to_value('rad')
+        B.assume(size(regs[0].radius) > 0)
+        B.assume(size(regs[1].width) > 0)
+        B.assume(size(regs[1].height) > 0)
+        return dict(regions=regs, fmt=fmt, opts=opts)
+    call = lambda fmt, regions, opts: write_with(fmt, regions, DEST, opts)
+    post = {'content': lambda fmt, regions, opts: text_equal(content_of(DEST), serialize_with(fmt, regions, opts))}
